@@ -222,6 +222,71 @@ def _sites(fn: ast.FunctionDef) -> list[dict]:
     return sites
 
 
+def _loop_depths(fn: ast.FunctionDef) -> dict[int, int]:
+    """_seq of every node -> number of loops whose BODY contains it"""
+    d: dict[int, int] = {}
+
+    def go(node, depth):
+        d[_seq(node)] = depth
+        if isinstance(node, (ast.For, ast.AsyncFor, ast.While)):
+            for fld in ('target', 'iter', 'test'):
+                ch = getattr(node, fld, None)
+                if ch is not None:
+                    go(ch, depth)
+            for st in node.body:
+                go(st, depth + 1)
+            for st in node.orelse:
+                go(st, depth)
+            return
+        for ch in ast.iter_child_nodes(node):
+            go(ch, depth)
+    go(fn, 0)
+    return d
+
+
+def _event_key(text_or_node) -> str:
+    """'low_res' -> low_res;  ('res', res_id) -> res   (the name of the loop variable does not matter)"""
+    try:
+        node = ast.parse(text_or_node, mode='eval').body if isinstance(text_or_node, str) else text_or_node
+    except SyntaxError:
+        return str(text_or_node)
+    if isinstance(node, ast.Constant) and isinstance(node.value, str):
+        return node.value
+    if isinstance(node, ast.Tuple) and node.elts and isinstance(node.elts[0], ast.Constant) and isinstance(node.elts[0].value, str):
+        return node.elts[0].value
+    return ast.unparse(node)
+
+
+def _save_events(fn: ast.FunctionDef, sites: list[dict]) -> list[str]:
+    """the file-writing events of save() in execution order as Coq terms of type sev (Fmt/VtfWholeFile.v)"""
+    depth = _loop_depths(fn)
+    out = []
+    for st in sites:
+        k = st['k']
+        if k == 'pack':
+            out.append(f'SvPack {_sl(st["fields"])}')
+        elif k == 'defer':
+            out.append(f'SvDefer {_s(_event_key(st["key"]))}')
+        elif k == 'set_data':
+            if st['value'] != 'file.tell()':
+                raise TranslateError(f'vtf.py line {st["line"]}: deferred.set_data with a value that is not file.tell()')
+            out.append(f'SvSet {_s(_event_key(st["key"]))}')
+        elif k == 'pad':
+            out.append(f'SvPad {st["n"]}%Z')
+        elif k == 'write':
+            try:
+                v = ast.parse(st['what'], mode='eval').body
+            except SyntaxError:
+                v = None
+            if isinstance(v, ast.Constant) and isinstance(v.value, bytes):
+                out.append('SvConst')
+            else:
+                out.append(f'SvWrite {depth.get(st["seq"], 0)}')
+        else:
+            raise TranslateError(f'vtf.py line {st["line"]}: event {k} in save() not understood')
+    return out
+
+
 def _one(sites, pred, what, node=None):
     got = [s for s in sites if pred(s)]
     if len(got) != 1:
@@ -257,6 +322,7 @@ def container_info() -> dict:
     save, read = meth('VTF', 'save'), meth('VTF', 'read')
     ss, rs = _sites(save), _sites(read)
     info: dict = {'save_sites': ss, 'read_sites': rs}
+    info['save_fn'] = save
     P = lambda fmt: (lambda s: s['k'] == 'pack' and s['fmt'] == fmt)
     U = lambda fmt: (lambda s: s['k'] in ('unpack', 'unpack_from') and s['fmt'].lstrip('<') == fmt.lstrip('<'))
     pairs = {}
@@ -371,7 +437,7 @@ def translate_container() -> tuple[str, dict]:
     info = container_info()
     b = lambda x: 'true' if x else 'false'
     L = ['(* GENERATED by translate/c15_container.py from src/srctools/vtf.py. Do not edit. *)',
-         'From Coq Require Import List Bool String ZArith.', 'From SV Require Import Bin.Struct Fmt.VtfContainer.', 'Import ListNotations.',
+         'From Coq Require Import List Bool String ZArith.', 'From SV Require Import Bin.Struct Fmt.VtfContainer Fmt.VtfWholeFile.', 'Import ListNotations.',
          'Local Open Scope string_scope.', '']
     def site(name, w, r):
         L.append(f'(* {name}: written at vtf.py:{w["line"]}, read at vtf.py:{r["line"]} *)')
@@ -400,6 +466,8 @@ def translate_container() -> tuple[str, dict]:
     L.append(f'Definition gen_flag_read_test : ftest := {info["read_flag_test"]}.')
     L.append(f'Definition gen_flagcfg : flagcfg := {{| fl_offset := gen_flag_offset; fl_inline := gen_flag_inline; fl_fixed := gen_flag_fixed; fl_test := gen_flag_read_test |}}.')
     L.append(f'Definition gen_save_entry_test : string := {_s(info["save_entry_test"])}.')
+    L.append('(* the file-writing events of VTF.save in execution order *)')
+    L.append('Definition gen_save_events : list sev := [' + '; '.join(_save_events(info['save_fn'], info['save_sites'])) + '].')
     sh = info['sheet']
     for name in ('head', 'seq', 'dur', 'tex'):
         w, r = sh[name]
